@@ -579,7 +579,7 @@ def flip(data, bit):
     return bytes(b)
 
 
-async def run_e2e(case):
+async def run_e2e(case, limit=6):
     import random
     import aiortc.rtcdtlstransport as M
     from OpenSSL import SSL
@@ -677,7 +677,7 @@ async def run_e2e(case):
                         srv_link.queue.put_nowait(d)
         timed_out = False
         try:
-            await asyncio.wait_for(asyncio.gather(side(0), side(1)), 6)
+            await asyncio.wait_for(asyncio.gather(side(0), side(1)), limit)
         except asyncio.TimeoutError:
             timed_out = True
         await settle(ice[0])
@@ -786,6 +786,9 @@ async def run_e2e(case):
         return out
 
 
+_DOUBLE_TIMEOUTS = [0]
+
+
 # ---------------------------------------------------------------------------------- the check
 class C04(Check):
     prop = "C04"
@@ -793,7 +796,7 @@ class C04(Check):
     models = ["Dtls"]
     quick_cases = 8000
     thorough_cases = 200000
-    case_timeout = 20.0
+    case_timeout = 60.0
     level_note = (
         "PARTIAL: theorems are about Model/Dtls.v (identity policy, start() gate incl. 'nothing handed over or sent "
         "unless all three stages passed' over all histories, SRTP key slicing / mirroring for every profile of the "
@@ -963,7 +966,17 @@ class C04(Check):
             return list(p.get_key_and_salt(bytes(case["src"]), case["idx"]))
         if kind == 2:
             return asyncio.run(run_scripted(case))
-        return asyncio.run(run_e2e(case))
+        if _DOUBLE_TIMEOUTS[0] >= 3:
+            # handshakes hang systematically (already reported three times): do not spend 36 s on each further case
+            return asyncio.run(run_e2e(case, 1.5))
+        out = asyncio.run(run_e2e(case))
+        if case["_rec"]["timed_out"]:
+            # a loaded machine can stall a handshake: retry once with a generous limit (DESIGN.md section 8)
+            case["_retried"] = True
+            out = asyncio.run(run_e2e(case, 30))
+            if case["_rec"]["timed_out"]:
+                _DOUBLE_TIMEOUTS[0] += 1
+        return out
 
     def impl_validate(self, case):
         import aiortc.rtcdtlstransport as M
@@ -1190,7 +1203,7 @@ class C04(Check):
             if rec["raised"][j] is not None:
                 return ("start-raised", f"side {j}: start() raised {rec['raised'][j]}")
         if rec["timed_out"]:
-            return ("handshake-timeout", "the DTLS pair did not finish start() within 6 s")
+            return ("handshake-timeout", "the DTLS pair did not finish start() within 6 s nor, retried, within 30 s")
         st = [out[j][0][0][1][0] for j in range(2)]          # state after start()
         keys = [[out[j][0][0][1][3], out[j][0][0][1][4]] for j in range(2)]
         for j in range(2):
